@@ -159,7 +159,8 @@ class C12(Check):
                             out.fail("roundtrip", "collect", f"collect() schema {d3.schema} vs {df.schema}")
                 except BaseException as ex:  # noqa: BLE001
                     reraise_control(ex)
-                    if not engine_quirk(ex, run.case2, run.ref):
+                    optimizer_victim = any(k.startswith("engine_quirk:polars_optimizer") for k in out.counters)
+                    if not engine_quirk(ex, run.case2, run.ref) and not optimizer_victim:
                         out.fail("internal-error", f"polars:roundtrip:{exc_name(ex)}", f"round trip raised {exc_name(ex)}: {str(ex)[:200]}")
 
 
